@@ -407,6 +407,12 @@ func (bc *boundsCtx) rangeOf0(v ssa.Value, seen map[ssa.Value]bool) ival {
 			}
 		}
 		if f := cc.StaticCallee(); f != nil && f.String() == "("+typesPath+".Base).Size" {
+			// a constant base type: its table entry exactly
+			if k, ok := cc.Args[0].(*ssa.Const); ok && k.Value != nil {
+				if bi := bc.c.baseInfo(newEvaluator(bc.c), byte(k.Uint64())); bi.Err == "" && bi.Known {
+					return exact(int64(bi.Size))
+				}
+			}
 			return rng(bc.sizeLo, bc.sizeHi)
 		}
 		if f := cc.StaticCallee(); f != nil && (f.String() == "bytes.IndexByte" || f.String() == "bytes.Index" || f.String() == "bytes.IndexAny" || f.String() == "bytes.IndexRune") {
